@@ -1,10 +1,39 @@
 (* Property C17 stated on what the collators return (no implementation vocabulary:
    no tries, no remaining budget, no traces).  Boolean versions are evaluated on
    the implementation's real output by the correspondence run. *)
-From Coq Require Import ZArith List Bool.
+From Coq Require Import ZArith List Bool Permutation.
 Import ListNotations.
 From KD Require Import C17.Model.
 Open Scope Z_scope.
+
+(* ------------------------------------------------- generator contracts *)
+(* a <= b for rationals with positive denominators *)
+Definition rat_le (a b : rat) : Prop := fst a * snd b <= fst b * snd a.
+
+(* what the theorems assume about one recorded draw:
+     rng.uniform(lo, hi)  lies in [lo, hi]   (exactly represented binary64 values)
+     int(round(sqrt(..))) is not negative
+     rng.integers(lo, hi) lies in [lo, hi)
+     rng.shuffle          applies a permutation of the positions
+   nothing is assumed about torch.Generator().manual_seed. *)
+Definition draw_ok (d : draw) : Prop :=
+  match d with
+  | DUnif lo hi v => 0 < snd lo /\ 0 < snd hi /\ 0 < snd v /\ rat_le lo v /\ rat_le v hi
+  | DRound v => 0 <= v
+  | DInt lo hi v => lo <= v < hi
+  | DPerm p => Permutation p (seq 0 (length p))
+  | DSeed _ => True
+  end.
+
+(* configurations the property quantifies over *)
+Definition dcfg_ok (c : dcfg) : Prop :=
+  0 <= dH c /\ 0 <= dW c /\ 0 <= dV c /\ 0 <= dPn c <= dPd c /\ 0 < dPd c /\ 0 <= dRn c /\ 0 < dRd c.
+
+Definition jcfg_ok (c : jcfg) : Prop := 1 <= jH c /\ 1 <= jW c.
+
+(* the block-size oracle returns what int(round(sqrt(..))) can return *)
+Definition sizes_ok (sizes : Z -> raw4) : Prop :=
+  forall s, let '(a, b, e, f) := sizes s in 0 <= a /\ 0 <= b /\ 0 <= e /\ 0 <= f.
 
 (* ---------------------------------------------------------------- DINO *)
 Definition count_true (r : list bool) : Z := fold_right (fun (b : bool) a => (if b then 1 else 0) + a) 0 r.
@@ -118,3 +147,13 @@ Definition ijepa_rows_okb (c : jcfg) (B : Z) (prem : bool) (enc pred : list (lis
             (zseq 0 (jNEnc c)))
           (zseq 0 (Z.to_nat B))
       else true).
+
+(* the property on the returned rows, as a proposition (what ijepa_rows_okb decides) *)
+Definition ijepa_ok (c : jcfg) (B : Z) (psize esize : Z * Z) (enc pred : list (list Z)) : Prop :=
+  len enc = Z.of_nat (jNEnc c) * B /\ len pred = Z.of_nat (jNPred c) * B /\
+  Forall (fun l => strictly_inc 0 l (jH c * jW c) = true) (enc ++ pred) /\
+  (exists k, common_length k enc) /\ (exists k, common_length k pred) /\
+  Forall (is_rect (jH c) (jW c) (fst psize) (snd psize)) pred /\
+  (premise c psize esize ->
+   forall j k b : nat, (j < jNEnc c)%nat -> (k < jNPred c)%nat -> (Z.of_nat b < B) ->
+     disjoint (row enc B (Z.of_nat j) (Z.of_nat b)) (row pred B (Z.of_nat k) (Z.of_nat b))).
